@@ -295,6 +295,7 @@ type Dialect struct {
 	CCFBMinusOne     bool // CCFB num_reports field = n-1, read back as field+1 (0 => empty)
 	CCFBRejectWrap   bool // CCFB block with begin_seq + field > 65535 is rejected
 	REMBZeroMantissa bool // REMB mantissa 0 decodes to 2^(exp+23)
+	APPPadFillCount  bool // every APP padding octet carries the padding count, not only the last one
 }
 
 var Strict = Dialect{}
